@@ -119,7 +119,7 @@ type c15Out struct {
 func c15Feed(d depack, train [][]byte) (outs []c15Out, pv any, st string) {
 	pv, st = fw.Guard(func() {
 		for _, p := range train {
-			o, err := d.Unmarshal(append([]byte(nil), p...))
+			o, err := d.Unmarshal(fw.Exact(p))
 			outs = append(outs, c15Out{append([]byte(nil), o...), err == nil})
 		}
 	})
